@@ -16,7 +16,8 @@ Vocabulary
 * `vis s p`: the visible sequence of the model state for parameters `p`
   (`C07_vis_is_spec_visible` equates it with the spec's `visible`).
 -/
-import AGH.Lemmas.QLogPaging
+import AGH.Lemmas.QLogAging
+import AGH.Lemmas.QLogJSON
 namespace AGH.C07
 open AGH AGH.Bytes
 
@@ -341,6 +342,35 @@ theorem C07_cursor_partition_from (s : State) (p : Params) (hi : Inv s) (hv : Va
     simp only [remaining, logOf]
     omega
 
+/-! ### Paging while the log changes -/
+
+/-- A cursor stays KNOWN — the time of an entry still in the log, or older than
+everything left — across any operation between two pages (record, flush,
+rotation ageing out the oldest file at any instant, clear, clean restart,
+config change), with file logging on and a forward-moving clock. -/
+theorem C07_cursor_survives (s : State) (last : Int) (op : Op) (t : Int) (hi : InvT s last) (hq : Quiet s)
+    (hf : s.conf.fileEnabled = true) (hcap : s.mem.length < ringCap s.conf) (ht : t ≤ last)
+    (hclock : ∀ e, opEntry op = some e → last < e.ts) (hk : Known s t) : Known (step s op) t :=
+  known_step s last op t hi hq hf hcap ht hclock hk
+
+/-- ...and from a known cursor the remaining pages are exactly the visible entries
+of the CURRENT log older than the cursor: among the entries that survive there
+is no gap and no duplicate (entries recorded meanwhile are newer than the
+cursor and belong to a fresh listing). -/
+theorem C07_cursor_partition_known (s : State) (p : Params) (hi : Inv s) (hv : ValidP p) (hoff : p.offset = 0)
+    (hscan : 2 ≤ p.scan ∨ p.scan ≤ 0) (t : Int) (hk : Known s t) :
+    (pageChain s p ((logOf s).length + 1) (some t)).2 = true ∧
+    (pageChain s p ((logOf s).length + 1) (some t)).1.flatten =
+      (vis s (withOlder p none)).filter (fun e => decide (e.ts < t)) :=
+  pageChain_known s p hi hv hoff hscan t hk
+
+/-- A cursor whose entry has aged out (everything left is newer) gets one empty
+page without cursor. -/
+theorem C07_aged_cursor_page (s : State) (p : Params) (hi : Inv s) (hv : ValidP p) (t : Int)
+    (hot : p.olderThan = some t) (hall : ∀ e ∈ logOf s, t < e.ts) :
+    search s p = .ok ([], none) ∧ vis s p = [] :=
+  search_aged s p hi hv t hot hall
+
 /-- Consecutive offset/limit slices are adjacent: together they are the longer
 slice (no gap, no overlap). -/
 theorem C07_offset_pages_adjacent (V : List Entry) (o l l' : Nat) :
@@ -356,12 +386,68 @@ theorem C07_quick_overapprox (c : Conf) (p : Params) (e : Entry) (h : matchE c p
 theorem C07_same_test_memory_and_files (c : Conf) (p : Params) (e : Entry) :
     keepE c p e = keepMem c p e := keepE_eq_keepMem c p e
 
+/-! ## The string level of the file format -/
+
+/-- ROUND TRIP of every string value (names, ClientIDs, upstreams, rule texts):
+what the JSON encoder writes between the quotes — with `"` `\` control bytes
+`<` `>` `&` escaped — is read back by the decoder as the same bytes. -/
+theorem C07_string_roundtrip (s : Bytes) : unescape (escape s) = some s := unescape_escape s
+
+/-- The test of `quickMatch` "the raw value contains a backslash" holds exactly for
+the values the model calls `jsonEscaped`. -/
+theorem C07_raw_backslash_exact (s : Bytes) : (escape s).contains 92 = jsonEscaped s :=
+  escape_contains_backslash s
+
+/-- Without an escape, the raw text `readJSONValue` cuts out of the line IS the
+decoded value: quick match and full match see the same host / ClientID. -/
+theorem C07_raw_value_unescaped (s rest : Bytes) (h : jsonEscaped s = false) :
+    rawValue (escape s ++ 34 :: rest) = s := rawValue_unescaped s rest h
+
 /-! ## Criteria -/
 
 /-- The transcription of `ctFilteringStatusCase` agrees with the documented
 meaning of every `response_status` value, for every reason code and flag. -/
 theorem C07_status_table (v : Status) (reason : Nat) (isF : Bool) :
     statusMatch v reason isF = statusSat v reason isF := statusMatch_eq_sat v reason isF
+
+/-- Every filtering result lands in exactly the documented statuses: `all` always;
+`blocked` is `blocked_services` or a block-list hit; the four `blocked_*` /
+`safe_search` classes and `rewritten`, `whitelisted` are pairwise disjoint and
+each inside `filtered`; `processed` is exactly "not blocked, not blocked
+service, not allow-listed"; nothing is both `whitelisted` and `processed` or
+both `blocked` and `processed`. -/
+theorem C07_status_partition (reason : Nat) (isF : Bool) :
+    statusMatch .all reason isF = true ∧
+    (statusMatch .blocked reason isF =
+      (statusMatch .blockedService reason isF || (isF && reason == rBlockList))) ∧
+    (statusMatch .blockedService reason isF = true → statusMatch .filtered reason isF = true) ∧
+    (statusMatch .blockedSafebrowsing reason isF = true → statusMatch .filtered reason isF = true) ∧
+    (statusMatch .blockedParental reason isF = true → statusMatch .filtered reason isF = true) ∧
+    (statusMatch .safeSearch reason isF = true → statusMatch .filtered reason isF = true) ∧
+    (statusMatch .rewritten reason isF = true → statusMatch .filtered reason isF = true) ∧
+    (statusMatch .whitelisted reason isF = true → statusMatch .filtered reason isF = true) ∧
+    (statusMatch .whitelisted reason isF = true → statusMatch .processed reason isF = false) ∧
+    (statusMatch .blocked reason isF = true → statusMatch .processed reason isF = false) ∧
+    (statusMatch .processed reason isF = (!(reason == rBlockList || reason == rBlockedService || reason == rAllowList))) := by
+  cases isF <;>
+    simp [statusMatch, isFilteredWithReason, reasonIn, rAllowList, rRewritten, rRewrittenAutoHosts,
+      rRewrittenRule, rBlockList, rBlockedService, rParental, rSafeBrowsing, rSafeSearch] <;>
+    (refine ⟨?_, ?_, ?_, ?_⟩ <;> first | omega | (rw [Bool.eq_iff_iff]; simp; try omega))
+
+/-- At most one of the exclusive classes holds for a filtering result. -/
+theorem C07_status_exclusive (reason : Nat) (isF : Bool) :
+    ([Status.blockedService, .blockedSafebrowsing, .blockedParental, .safeSearch, .rewritten, .whitelisted].filter
+      (fun v => statusMatch v reason isF)).length ≤ 1 := by
+  cases isF <;>
+    simp [statusMatch, isFilteredWithReason, reasonIn, rAllowList, rRewritten, rRewrittenAutoHosts,
+      rRewrittenRule, rBlockList, rBlockedService, rParental, rSafeBrowsing, rSafeSearch, List.filter_cons] <;>
+    (repeat' split) <;> simp_all <;> omega
+
+/-- The table of `response_status` names covers the ten values, each once. -/
+theorem C07_status_names_complete :
+    statusNames.map (·.2) = [.all, .filtered, .blocked, .blockedService, .blockedSafebrowsing, .blockedParental,
+      .whitelisted, .rewritten, .safeSearch, .processed] ∧ (statusNames.map (·.1)).Nodup := by
+  decide
 
 /-- The case-insensitive substring test of the package tries every offset: it
 holds exactly when the term occurs somewhere (F13 repaired). -/
